@@ -11,7 +11,9 @@ to the contents; `cart_read_write_read_id`: read, written, read again gives the 
 text up to the trimming of trailing placeholders), for EVERY class the completeness theorem
 `write_read_complete_partial` (a drawing reads back with every label at its own index unless the outline inferred from
 the data misses a cell or the reader re-infers other dimensions — the two classes the known findings are filed under), and for third-core maps of ANY radius that the dimension
-inference recovers the outline (`third_dims_complete`, `third_write_read_id_partial`: complete maps, and maps with holes away
+inference recovers the outline (`third_dims_complete`, `third_write_read_id_partial`; tips-up and full flats-up maps likewise:
+`tips_write_read_id_partial`, `full_write_read_id_partial`, where the reader provably re-infers radius and corner cut; and for EVERY class
+`read_back_nothing_invented_partial`: every label read back was drawn from the contents; complete maps, and maps with holes away
 from the two anchor cells, are drawn completely), cumulative block elevations, link resolution over
 a DAG / rejection of cycles and unknown targets, exact placement / refusal of unknown specifiers.
 Correspondence-only (harness/c18.py): whole read/write round trips of the maps (exhaustive small +
@@ -1567,6 +1569,588 @@ theorem cart_read_write_id (lines : List (List String)) (m m2 : AMap)
       simp only [Function.comp_def, hto, List.getElem?_eq_getElem hil, Option.getD_some]
       exact hrt i _ (List.getElem?_eq_getElem hil)
 
+
+/-- the row the writer draws for text line `ln` (before trimming): one token per window column -/
+def drawRow (k : Kind) (L : Labels) (M o W : Int) (ln : Int) : List String :=
+  (pyRange W).map (fun c => tokenAt L (cellOf k M o c ln))
+
+/-- all rows the writer draws, in writing order (top of the text first) -/
+def rawLines (k : Kind) (L : Labels) (M o W H : Int) : List (List String) :=
+  (if k = .tips then pyRange H else (pyRange H).reverse).map (drawRow k L M o W)
+
+/-- **what `gridContentsToAscii` produces**: the raw rows with `kd` leading placeholder rows dropped and every
+remaining row trimmed of its trailing placeholders -/
+theorem drawn_lines (k : Kind) (L : Labels) (m : AMap) (M o W H : Int)
+    (hdim : dimsFromData k L = some (M, o, W, H)) (hw : gridContentsToAscii k L = some m) :
+    ∃ kd, kd ≤ H.toNat ∧ m.lines = ((rawLines k L M o W H).drop kd).map removeTrailing ∧
+      (∀ row ∈ (rawLines k L M o W H).take kd, rowAllDash row = true) ∧
+      (∀ row ∈ (rawLines k L M o W H).drop kd, removeTrailing row ≠ []) ∧ m.lines ≠ [] := by
+  unfold gridContentsToAscii at hw
+  simp only [hdim] at hw
+  have hraw : ((if k = .tips then pyRange H else (pyRange H).reverse).map
+      (fun ln => (pyRange W).map (fun c => tokenAt L (cellOf k M o c ln)))) = rawLines k L M o W H := rfl
+  rw [hraw] at hw
+  cases hcl : cleanLines (rawLines k L M o W H) true [] with
+  | none => simp [hcl] at hw
+  | some r =>
+    simp only [hcl] at hw
+    by_cases hrem : r.isEmpty = true
+    · simp [hrem] at hw
+    simp only [hrem, Bool.false_eq_true, ↓reduceIte, Option.some.injEq] at hw
+    have hml : m.lines = r := by rw [← hw]
+    obtain ⟨kd, hkl, hdash, hr, hne⟩ := cleanLines_true _ r hcl
+    have hlen0 : (rawLines k L M o W H).length = H.toNat := by
+      unfold rawLines; split <;> simp [pyRange]
+    refine ⟨kd, by omega, by rw [hml, hr], hdash, hne, ?_⟩
+    rw [hml]; intro hc; apply hrem; simp [hc]
+
+/-- a row whose last token is not a placeholder is left alone by the trimming -/
+theorem removeTrailing_of_last_data (row : List String) (t : String) (h : row.getLast? = some t) (ht : t ≠ PLACEHOLDER) :
+    removeTrailing row = row := by
+  obtain ⟨suf, hsplit, hsuf⟩ := removeTrailing_spec row
+  cases suf with
+  | nil => simpa using hsplit.symm
+  | cons s ss =>
+    exfalso
+    have hl : row.getLast? = (s :: ss).getLast? := by
+      have hne : (s :: ss).getLast? = some ((s :: ss).getLast (by simp)) := List.getLast?_eq_some_getLast (by simp)
+      rw [hsplit, List.getLast?_append, hne]; rfl
+    have hmem : t ∈ s :: ss := by
+      have : (s :: ss).getLast? = some t := by rw [← hl]; exact h
+      exact List.mem_of_getLast? this
+    exact ht (hsuf t hmem)
+
+theorem removeTrailing_length_le (row : List String) : (removeTrailing row).length ≤ row.length := by
+  obtain ⟨suf, hsplit, _⟩ := removeTrailing_spec row
+  have := congrArg List.length hsplit
+  simp at this; omega
+
+private theorem get?_of_mem (L : Labels) (cell : Cell) (v : String) (h : (cell, v) ∈ L) :
+    ∃ v', get? L cell = some v' ∧ (cell, v') ∈ L := by
+  cases hg : get? L cell with
+  | some v' => exact ⟨v', rfl, get?_some_mem L cell v' hg⟩
+  | none =>
+    exfalso
+    unfold get? at hg
+    have : L.find? (fun q => q.1 == cell) = none := by
+      cases hf : L.find? (fun q => q.1 == cell) with
+      | none => rfl
+      | some q => simp [hf] at hg
+    rw [List.find?_eq_none] at this
+    exact this _ h (by simp)
+
+/-- a cell holding data is drawn as a data token -/
+private theorem tokenAt_data (L : Labels) (hdata : ∀ p ∈ L, IsData p.2) (cell : Cell) (v : String) (h : (cell, v) ∈ L) :
+    IsData (tokenAt L cell) := by
+  obtain ⟨v', hg, hm⟩ := get?_of_mem L cell v h
+  have hd := hdata _ hm
+  simp only at hd
+  unfold tokenAt
+  rw [hg]
+  simp only [hd.2.1]
+  exact hd
+
+private theorem drawRow_get (k : Kind) (L : Labels) (M o W ln : Int) (c : Nat) :
+    (drawRow k L M o W ln)[c]? = if (c : Int) < W then some (tokenAt L (cellOf k M o (c : Int) ln)) else none := by
+  simp only [drawRow, List.getElem?_map, pyRange_get]
+  split <;> simp
+
+private theorem drawRow_length (k : Kind) (L : Labels) (M o W ln : Int) : (drawRow k L M o W ln).length = W.toNat := by
+  simp [drawRow, pyRange]
+
+private theorem drawRow_last (k : Kind) (L : Labels) (M o W ln : Int) (hW : 1 ≤ W) :
+    (drawRow k L M o W ln).getLast? = some (tokenAt L (cellOf k M o (W - 1) ln)) := by
+  rw [List.getLast?_eq_getElem?, drawRow_length, drawRow_get]
+  have h1 : ((W.toNat - 1 : Nat) : Int) = W - 1 := by omega
+  have h2 : ((W.toNat - 1 : Nat) : Int) < W := by omega
+  rw [if_pos h2, h1]
+
+/-- **dimension inference recovers the outline of a tips-up map** of any radius as soon as `(M, 0)` holds data
+and no cell lies beyond ring `M` -/
+theorem tips_dims_complete (L : Labels) (M : Int)
+    (hring : ∀ p ∈ L, p.1.1 + p.1.2 ≤ M) (hA : ∃ v, ((M, 0), v) ∈ L) :
+    dimsFromData .tips L = some (M, 0, M * 2 + 1, M * 2 + 1) := by
+  obtain ⟨vA, hAm⟩ := hA
+  have hne : L.isEmpty = false := by cases L with | nil => cases hAm | cons _ _ => rfl
+  unfold dimsFromData
+  simp only [hne, Bool.false_eq_true, ↓reduceIte]
+  have hij : maxD 0 ((L.map (·.1)).map (fun c => c.1 + c.2)) = M := by
+    apply maxD_eq
+    · exact List.mem_map.mpr ⟨(M, 0), List.mem_map.mpr ⟨_, hAm, rfl⟩, by simp⟩
+    · intro x hx
+      obtain ⟨c, hc, rfl⟩ := List.mem_map.mp hx
+      obtain ⟨p, hp, rfl⟩ := List.mem_map.mp hc
+      exact hring p hp
+  simp only [hij]
+
+theorem tips_window (M o i j : Int) (h1 : -M ≤ i) (h2 : i ≤ M) (h3 : -M ≤ i + j) (h4 : i + j ≤ M) :
+    ∃ c l, 0 ≤ c ∧ c < M * 2 + 1 ∧ 0 ≤ l ∧ l < M * 2 + 1 ∧ cellOf .tips M o c l = (i, j) :=
+  ⟨i + M, M - i - j, by omega, by omega, by omega, by omega, tips_cell_inverse M o i j⟩
+
+/-- **tips-up maps, write then read, any radius** (`_partial`: data labels): contents inside the hexagon of radius
+`M` that hold data at the two anchor cells `(M, 0)` (end of the top text line; fixes the radius) and `(M, -M)` (end
+of the widest text line; lets the reader re-infer the radius) — in particular every complete pin map — are drawn
+and read back with every label at its own index. -/
+theorem tips_write_read_id_partial (L : Labels) (m : AMap) (M : Int) (hM : 0 ≤ M)
+    (hdata : ∀ p ∈ L, IsData p.2)
+    (hhex : ∀ p ∈ L, -M ≤ p.1.1 ∧ p.1.1 ≤ M ∧ -M ≤ p.1.1 + p.1.2 ∧ p.1.1 + p.1.2 ≤ M)
+    (hA : ∃ v, ((M, 0), v) ∈ L) (hC : ∃ v, ((M, -M), v) ∈ L)
+    (hw : gridContentsToAscii .tips L = some m) :
+    ∃ m', readAscii .tips m.lines = some m' ∧
+      ∀ cell v, get? L cell = some v → get? m'.labels cell = some v := by
+  have hdim := tips_dims_complete L M (fun p hp => (hhex p hp).2.2.2) hA
+  obtain ⟨kd, hkd, hlines, hdash, _, _⟩ := drawn_lines .tips L m M 0 (M * 2 + 1) (M * 2 + 1) hdim hw
+  obtain ⟨vA, hAm⟩ := hA
+  obtain ⟨vC, hCm⟩ := hC
+  have hraw : rawLines .tips L M 0 (M * 2 + 1) (M * 2 + 1) =
+      (pyRange (M * 2 + 1)).map (drawRow .tips L M 0 (M * 2 + 1)) := by simp [rawLines]
+  have hHn : (M * 2 + 1).toNat = 2 * M.toNat + 1 := by omega
+  -- no leading row is dropped: the top row ends with the data of (M, 0)
+  have hkd0 : kd = 0 := by
+    rcases Nat.eq_zero_or_pos kd with h | h
+    · exact h
+    · exfalso
+      have hfirst : (rawLines .tips L M 0 (M * 2 + 1) (M * 2 + 1))[0]? = some (drawRow .tips L M 0 (M * 2 + 1) 0) := by
+        rw [hraw, List.getElem?_map, pyRange_get]
+        have h0 : (0 : Int) < M * 2 + 1 := by omega
+        simp [h0]
+      have hin : drawRow .tips L M 0 (M * 2 + 1) 0 ∈ (rawLines .tips L M 0 (M * 2 + 1) (M * 2 + 1)).take kd := by
+        have : ((rawLines .tips L M 0 (M * 2 + 1) (M * 2 + 1)).take kd)[0]? = some (drawRow .tips L M 0 (M * 2 + 1) 0) := by
+          rw [List.getElem?_take, if_pos h]; exact hfirst
+        exact List.mem_of_getElem? this
+      have hd := hdash _ hin
+      have hlast := drawRow_last .tips L M 0 (M * 2 + 1) 0 (by omega)
+      have hcell : cellOf .tips M 0 (M * 2 + 1 - 1) 0 = (M, 0) := by
+        simp only [cellOf, tipsBase, Prod.mk.injEq]; omega
+      rw [hcell] at hlast
+      have htd := tokenAt_data L hdata (M, 0) vA hAm
+      have hmem := List.mem_of_getLast? hlast
+      unfold rowAllDash at hd
+      simp only [Bool.and_eq_true] at hd
+      have hall := List.all_eq_true.mp hd.2 _ hmem
+      rw [htd.2.2.2] at hall; cases hall
+  subst hkd0
+  simp only [List.drop_zero] at hlines
+  -- the reader re-infers the radius from the widest line, the one ending in (M, -M)
+  have hre : readerDims .tips m.lines = (M, 0) := by
+    unfold readerDims
+    simp only [Prod.mk.injEq, and_true]
+    have hmax : maxD 0 (m.lines.map (fun l => (l.length : Int))) = M * 2 + 1 := by
+      apply maxD_eq
+      · -- the middle line
+        have hmid : drawRow .tips L M 0 (M * 2 + 1) M ∈ rawLines .tips L M 0 (M * 2 + 1) (M * 2 + 1) := by
+          rw [hraw]
+          refine List.mem_map.mpr ⟨M, ?_, rfl⟩
+          simp only [pyRange, List.mem_map, List.mem_range]
+          exact ⟨M.toNat, by omega, by simp; omega⟩
+        have hlast := drawRow_last .tips L M 0 (M * 2 + 1) M (by omega)
+        have hcell : cellOf .tips M 0 (M * 2 + 1 - 1) M = (M, -M) := by
+          simp only [cellOf, tipsBase, Prod.mk.injEq]; omega
+        rw [hcell] at hlast
+        have htd := tokenAt_data L hdata (M, -M) vC hCm
+        have hrt := removeTrailing_of_last_data _ _ hlast htd.2.2.1
+        rw [hlines]
+        refine List.mem_map.mpr ⟨removeTrailing (drawRow .tips L M 0 (M * 2 + 1) M), List.mem_map.mpr ⟨_, hmid, rfl⟩, ?_⟩
+        rw [hrt, drawRow_length]; omega
+      · intro x hx
+        obtain ⟨l, hl, rfl⟩ := List.mem_map.mp hx
+        rw [hlines] at hl
+        obtain ⟨row, hrow, rfl⟩ := List.mem_map.mp hl
+        rw [hraw] at hrow
+        obtain ⟨ln, _, rfl⟩ := List.mem_map.mp hrow
+        have := removeTrailing_length_le (drawRow .tips L M 0 (M * 2 + 1) ln)
+        rw [drawRow_length] at this
+        omega
+    rw [hmax]; omega
+  apply write_read_complete_partial .tips L m M 0 (M * 2 + 1) (M * 2 + 1) hdim hdata _ hw (fun _ => hre)
+  · intro _
+    rw [hlines, List.length_map, hraw, List.length_map]; simp [pyRange]
+  · intro p hp
+    obtain ⟨h1, h2, h3, h4⟩ := hhex p hp
+    exact tips_window M 0 p.1.1 p.1.2 h1 h2 h3 h4
+
+private theorem enum_mem {α} (l : List α) (x : Int × α) (h : x ∈ enum l) : ∃ i : Nat, x.1 = (i : Int) ∧ l[i]? = some x.2 := by
+  unfold enum at h
+  obtain ⟨i, hi⟩ := List.getElem?_of_mem h
+  obtain ⟨x1, x2⟩ := x
+  rw [List.getElem?_zip_eq_some] at hi
+  obtain ⟨h1, h2⟩ := hi
+  refine ⟨i, ?_, h2⟩
+  simp only [List.getElem?_map] at h1
+  rcases Nat.lt_or_ge i l.length with hi | hi
+  · rw [List.getElem?_range hi] at h1
+    simp at h1; exact h1.symm
+  · rw [List.getElem?_eq_none (by simpa using hi)] at h1
+    simp at h1
+
+/-- every key of a dictionary read from a text is the index computed for an actual text position -/
+theorem readLabels_mem (k : Kind) (M o : Int) (lines : List (List String)) (q : Cell × String)
+    (h : q ∈ readLabels k M o lines) :
+    ∃ (l c : Nat) (row : List String), (if k = .tips then lines else lines.reverse)[l]? = some row ∧
+      c < row.length ∧ q.1 = cellOf k M o (c : Int) (l : Int) := by
+  unfold readLabels at h
+  simp only [] at h
+  generalize hord : (if k = Kind.tips then lines else lines.reverse) = ordered at h ⊢
+  let P : Cell × String → Prop := fun q => ∃ (l c : Nat) (row : List String), ordered[l]? = some row ∧
+      c < row.length ∧ q.1 = cellOf k M o (c : Int) (l : Int)
+  have hinner : ∀ (toks : List (Int × String)) (l : Nat) (row : List String) (acc : Labels),
+      ordered[l]? = some row → (∀ ct ∈ toks, ∃ c : Nat, ct.1 = (c : Int) ∧ c < row.length) → (∀ q ∈ acc, P q) →
+      ∀ q ∈ toks.foldl (fun a (ct : Int × String) => put a (cellOf k M o ct.1 (l : Int)) ct.2) acc, P q := by
+    intro toks
+    induction toks with
+    | nil => intro l row acc _ _ hacc q hq; exact hacc q hq
+    | cons ct toks ih =>
+      intro l row acc hrow htoks hacc q hq
+      simp only [List.foldl_cons] at hq
+      apply ih l row _ hrow (fun x hx => htoks x (List.mem_cons_of_mem _ hx)) _ q hq
+      intro q' hq'
+      rcases put_mem _ _ _ _ hq' with h1 | h1
+      · exact hacc q' h1
+      · subst h1
+        obtain ⟨c, hc, hlt⟩ := htoks ct List.mem_cons_self
+        exact ⟨l, c, row, hrow, hlt, by simp only [hc]⟩
+  have houter : ∀ (rows : List (Int × List String)) (acc : Labels),
+      (∀ ll ∈ rows, ∃ l : Nat, ll.1 = (l : Int) ∧ ordered[l]? = some ll.2) → (∀ q ∈ acc, P q) →
+      ∀ q ∈ rows.foldl (fun acc (ll : Int × List String) =>
+        (enum ll.2).foldl (fun a (ct : Int × String) => put a (cellOf k M o ct.1 ll.1) ct.2) acc) acc, P q := by
+    intro rows
+    induction rows with
+    | nil => intro acc _ hacc q hq; exact hacc q hq
+    | cons ll rows ih =>
+      intro acc hrows hacc q hq
+      simp only [List.foldl_cons] at hq
+      apply ih _ (fun x hx => hrows x (List.mem_cons_of_mem _ hx)) _ q hq
+      obtain ⟨l, hl, hrow⟩ := hrows ll List.mem_cons_self
+      rw [hl]
+      apply hinner (enum ll.2) l ll.2 acc hrow _ hacc
+      intro ct hct
+      obtain ⟨c, hc, hget⟩ := enum_mem ll.2 ct hct
+      refine ⟨c, hc, ?_⟩
+      rcases Nat.lt_or_ge c ll.2.length with h | h
+      · exact h
+      · rw [List.getElem?_eq_none h] at hget; cases hget
+  exact houter (enum ordered) [] (fun ll hll => enum_mem ordered ll hll) (by simp) q h
+
+private theorem get?_of_mem_nodup (L : Labels) (hnd : (L.map (·.1)).Nodup) (p : Cell × String) (hp : p ∈ L) :
+    get? L p.1 = some p.2 := by
+  induction L with
+  | nil => cases hp
+  | cons q L ih =>
+    simp only [List.map_cons, List.nodup_cons] at hnd
+    rcases List.mem_cons.mp hp with rfl | hp'
+    · simp [get?]
+    · have hne : (q.1 == p.1) = false := by
+        simp; intro hc; apply hnd.1; rw [hc]; exact List.mem_map.mpr ⟨p, hp', rfl⟩
+      have := ih hnd.2 hp'
+      simpa [get?, List.find?_cons, hne] using this
+
+/-- **nothing is invented, in every class** (`_partial`: data labels; reader re-infers the writer's dimensions; tips-up:
+no leading row dropped): every non-placeholder label read back from a drawing sits at an index where the contents
+hold exactly that label. Together with `write_read_complete_partial` the drawing then reads back to the contents,
+no more and no less. -/
+theorem read_back_nothing_invented_partial (k : Kind) (L : Labels) (m m' : AMap) (M o W H : Int)
+    (hdim : dimsFromData k L = some (M, o, W, H))
+    (hdata : ∀ p ∈ L, IsData p.2)
+    (hw : gridContentsToAscii k L = some m)
+    (hre : k ≠ .third → readerDims k m.lines = (M, o))
+    (htop : k = .tips → m.lines.length = H.toNat)
+    (hr : readAscii k m.lines = some m') :
+    ∀ q ∈ m'.labels, q.2 ≠ PLACEHOLDER → get? L q.1 = some q.2 := by
+  intro q hq hne
+  obtain ⟨kd, hkd, hlines, _, _, _⟩ := drawn_lines k L m M o W H hdim hw
+  have hlab : m'.labels = readLabels k M o m.lines := by
+    rw [readAscii_labels k m.lines m' hr]
+    by_cases hk3 : k = .third
+    · subst hk3; rfl
+    · rw [hre hk3]
+  rw [hlab] at hq
+  obtain ⟨l, c, row, hrow, hc, hkey⟩ := readLabels_mem k M o m.lines q hq
+  have hval : get? (readLabels k M o m.lines) q.1 = some q.2 :=
+    get?_of_mem_nodup _ (readLabels_keys_nodup k M o m.lines) q hq
+  rw [hkey, read_keeps_every_token k M o m.lines c l (by omega)] at hval
+  have hlook : rowsLookup (if k = .tips then m.lines else m.lines.reverse) 0 (c : Int) (l : Int) = row[c]? := by
+    unfold rowsLookup
+    have h0 : ((0 : Nat) : Int) ≤ (l : Int) ∧ (0 : Int) ≤ (c : Int) := by omega
+    rw [if_pos h0]
+    have : ((l : Int) - ((0 : Nat) : Int)).toNat = l := by omega
+    simp [this, hrow]
+  rw [hlook, List.getElem?_eq_getElem hc] at hval
+  -- the row is a trimmed drawn row
+  have hraw_len : (rawLines k L M o W H).length = H.toNat := by unfold rawLines; split <;> simp [pyRange]
+  have hrowdrawn : ∃ ln : Int, row = removeTrailing (drawRow k L M o W ln) ∧ cellOf k M o (c : Int) ln = cellOf k M o (c : Int) (l : Int) := by
+    by_cases hk : k = .tips
+    · have hkd0 : kd = 0 := by
+        have := htop hk
+        rw [hlines, List.length_map, List.length_drop, hraw_len] at this
+        omega
+      subst hk
+      simp only [↓reduceIte] at hrow
+      rw [hlines, hkd0, List.drop_zero, List.getElem?_map] at hrow
+      simp only [rawLines, ↓reduceIte, List.getElem?_map, pyRange_get] at hrow
+      split at hrow
+      · simp only [Option.map_some, Option.some.injEq] at hrow
+        exact ⟨(l : Int), hrow.symm, rfl⟩
+      · simp at hrow
+    · simp only [hk, ↓reduceIte] at hrow
+      rw [hlines, ← List.map_reverse, List.reverse_drop, List.getElem?_map, List.getElem?_take] at hrow
+      split at hrow
+      · have hrev : (rawLines k L M o W H).reverse = (pyRange H).map (drawRow k L M o W) := by
+          simp only [rawLines, hk, ↓reduceIte]
+          rw [← List.map_reverse, List.reverse_reverse]
+        rw [hrev, List.getElem?_map, pyRange_get] at hrow
+        split at hrow
+        · simp only [Option.map_some, Option.some.injEq] at hrow
+          exact ⟨(l : Int), hrow.symm, rfl⟩
+        · simp at hrow
+      · simp at hrow
+  obtain ⟨ln, hrowln, hcellln⟩ := hrowdrawn
+  -- its token at column c is the drawn token of that index
+  have htokrow : (drawRow k L M o W ln)[c]? = some (row[c]'hc) := by
+    obtain ⟨suf, hsplit, _⟩ := removeTrailing_spec (drawRow k L M o W ln)
+    rw [hsplit]
+    apply prefix_get
+    rw [← hrowln]; exact List.getElem?_eq_getElem hc
+  rw [drawRow_get] at htokrow
+  split at htokrow
+  · simp only [Option.some.injEq] at htokrow hval
+    rw [hcellln, ← hkey] at htokrow
+    -- q.2 is what the writer draws for index q.1
+    have hq2 : tokenAt L q.1 = q.2 := by rw [htokrow, hval]
+    unfold tokenAt at hq2
+    cases hg : get? L q.1 with
+    | none => rw [hg] at hq2; exact absurd hq2.symm hne
+    | some v =>
+      rw [hg] at hq2
+      simp only at hq2
+      have hd := hdata _ (get?_some_mem L q.1 v hg)
+      simp only at hd
+      rw [hd.2.1] at hq2
+      rw [hq2]
+  · cases htokrow
+
+
+/-- the same for full flats-up maps (the corner inference is shared with the third-core class) -/
+theorem full_dims_complete (L : Labels) (M : Int) (hM : 0 ≤ M)
+    (hring : ∀ p ∈ L, p.1.1 + p.1.2 ≤ M)
+    (hA : ∃ v, ((M, 0), v) ∈ L)
+    (hB : 1 ≤ M → ∃ v, ((M - 1, 1), v) ∈ L)
+    (hB0 : M = 0 → ∀ p ∈ L, p.1.2 ≠ 1) :
+    dimsFromData .full L = some (M, 0, M + 1, M * 4 + 1 - 0 * 2) := by
+  obtain ⟨vA, hAm⟩ := hA
+  have hne : L.isEmpty = false := by cases L with | nil => cases hAm | cons _ _ => rfl
+  unfold dimsFromData
+  simp only [hne, Bool.false_eq_true, ↓reduceIte]
+  -- ijMax
+  have hij : maxD 0 ((L.map (·.1)).map (fun c => c.1 + c.2)) = M := by
+    apply maxD_eq
+    · exact List.mem_map.mpr ⟨(M, 0), List.mem_map.mpr ⟨_, hAm, rfl⟩, by simp⟩
+    · intro x hx
+      obtain ⟨c, hc, rfl⟩ := List.mem_map.mp hx
+      obtain ⟨p, hp, rfl⟩ := List.mem_map.mp hc
+      exact hring p hp
+  -- outermost data on the j = 0 ray
+  have h0 : maxD (-1) (((L.map (·.1)).filter (fun c => c.2 == 0)).map (·.1)) = M := by
+    apply maxD_eq
+    · refine List.mem_map.mpr ⟨(M, 0), List.mem_filter.mpr ⟨List.mem_map.mpr ⟨_, hAm, rfl⟩, by simp⟩, rfl⟩
+    · intro x hx
+      obtain ⟨c, hc, rfl⟩ := List.mem_map.mp hx
+      obtain ⟨hc1, hc2⟩ := List.mem_filter.mp hc
+      obtain ⟨p, hp, rfl⟩ := List.mem_map.mp hc1
+      have := hring p hp
+      have h2 : p.1.2 = 0 := by simpa using hc2
+      omega
+  -- and on the j = 1 ray
+  have h1 : maxD (-1) (((L.map (·.1)).filter (fun c => c.2 == 1)).map (·.1)) = M - 1 := by
+    by_cases hM1 : 1 ≤ M
+    · obtain ⟨vB, hBm⟩ := hB hM1
+      apply maxD_eq
+      · refine List.mem_map.mpr ⟨(M - 1, 1), List.mem_filter.mpr ⟨List.mem_map.mpr ⟨_, hBm, rfl⟩, by simp⟩, rfl⟩
+      · intro x hx
+        obtain ⟨c, hc, rfl⟩ := List.mem_map.mp hx
+        obtain ⟨hc1, hc2⟩ := List.mem_filter.mp hc
+        obtain ⟨p, hp, rfl⟩ := List.mem_map.mp hc1
+        have := hring p hp
+        have h2 : p.1.2 = 1 := by simpa using hc2
+        omega
+    · -- M = 0: nothing on the j = 1 ray at all
+      have hM0 : M = 0 := by omega
+      have hnil : ((L.map (·.1)).filter (fun c => c.2 == 1)).map (·.1) = [] := by
+        rw [List.map_eq_nil_iff, List.filter_eq_nil_iff]
+        intro c hc
+        obtain ⟨p, hp, rfl⟩ := List.mem_map.mp hc
+        have := hB0 hM0 p hp
+        simpa using this
+      rw [hnil, maxD_empty]; omega
+  simp only [hij, h0, h1]
+  simp
+
+
+
+theorem full_window (M i j : Int) (h1 : -M ≤ i) (h2 : i ≤ M) (h3 : -M ≤ j) (h4 : j ≤ M) (h5 : -M ≤ i + j) (h6 : i + j ≤ M) :
+    ∃ c l, 0 ≤ c ∧ c < M + 1 ∧ 0 ≤ l ∧ l < M * 4 + 1 - 0 * 2 ∧ cellOf .full M 0 c l = (i, j) := by
+  refine ⟨(fullBase M 0 (i + 2 * j + 2 * M - 0)).2 - j, i + 2 * j + 2 * M - 0, ?_, ?_, by omega, by omega,
+    full_cell_inverse M 0 i j⟩
+  · have h := full_cell_inverse M 0 i j
+    simp only [cellOf, Prod.mk.injEq] at h
+    have hb : (fullBase M 0 (i + 2 * j + 2 * M - 0)).1 ≤ i := by
+      unfold fullBase
+      simp only []
+      split
+      · simp only []; omega
+      · split <;> (simp only []; omega)
+    omega
+  · have h := full_cell_inverse M 0 i j
+    simp only [cellOf, Prod.mk.injEq] at h
+    have hb : i - 2 * M ≤ (fullBase M 0 (i + 2 * j + 2 * M - 0)).1 := by
+      unfold fullBase
+      simp only []
+      split
+      · simp only []; omega
+      · split <;> (simp only []; omega)
+    omega
+
+/-- **full flats-up maps, write then read, any radius** (`_partial`: data labels): contents inside the hexagon of
+radius `M` that hold data at the anchor cells `(M, 0)`, `(M - 1, 1)` (corner inference), `(0, -M)` (the single cell of
+the bottom text line, from which the reader infers that no corner was cut) and `(M, -M)` (end of the widest text
+line, from which it infers the radius) — in particular every complete core map — are drawn and read back with every
+label at its own index. -/
+theorem full_write_read_id_partial (L : Labels) (m : AMap) (M : Int) (hM : 0 ≤ M)
+    (hdata : ∀ p ∈ L, IsData p.2)
+    (hhex : ∀ p ∈ L, -M ≤ p.1.1 ∧ p.1.1 ≤ M ∧ -M ≤ p.1.2 ∧ p.1.2 ≤ M ∧ -M ≤ p.1.1 + p.1.2 ∧ p.1.1 + p.1.2 ≤ M)
+    (hA : ∃ v, ((M, 0), v) ∈ L)
+    (hB : 1 ≤ M → ∃ v, ((M - 1, 1), v) ∈ L)
+    (hB0 : M = 0 → ∀ p ∈ L, p.1.2 ≠ 1)
+    (hC : ∃ v, ((M, -M), v) ∈ L) (hD : ∃ v, ((0, -M), v) ∈ L)
+    (hw : gridContentsToAscii .full L = some m) :
+    ∃ m', readAscii .full m.lines = some m' ∧
+      ∀ cell v, get? L cell = some v → get? m'.labels cell = some v := by
+  have hdim := full_dims_complete L M hM (fun p hp => (hhex p hp).2.2.2.2.2) hA hB hB0
+  obtain ⟨kd, hkd, hlines, hdash, _, hne⟩ := drawn_lines .full L m M 0 (M + 1) (M * 4 + 1 - 0 * 2) hdim hw
+  obtain ⟨vC, hCm⟩ := hC
+  obtain ⟨vD, hDm⟩ := hD
+  have hk : (Kind.full = Kind.tips) = False := by simp
+  have hraw : rawLines .full L M 0 (M + 1) (M * 4 + 1 - 0 * 2) =
+      (pyRange (M * 4 + 1 - 0 * 2)).reverse.map (drawRow .full L M 0 (M + 1)) := by simp [rawLines]
+  have hrawlen : (rawLines .full L M 0 (M + 1) (M * 4 + 1 - 0 * 2)).length = (M * 4 + 1 - 0 * 2).toNat := by
+    rw [hraw]; simp [pyRange]
+  -- the bottom text line: the single cell (0, -M)
+  have hbottom : removeTrailing (drawRow .full L M 0 (M + 1) 0) = [tokenAt L (0, -M)] := by
+    have hsplit : drawRow .full L M 0 (M + 1) 0 = (drawRow .full L M 0 (M + 1) 0).take 1 ++ (drawRow .full L M 0 (M + 1) 0).drop 1 :=
+      (List.take_append_drop 1 _).symm
+    have hcell0 : cellOf .full M 0 0 0 = (0, -M) := by
+      simp only [cellOf, fullBase]
+      split
+      · simp only [Prod.mk.injEq]; omega
+      · split <;> (simp only [Prod.mk.injEq]; omega)
+    have htake : (drawRow .full L M 0 (M + 1) 0).take 1 = [tokenAt L (0, -M)] := by
+      apply List.ext_getElem?
+      intro i
+      rw [List.getElem?_take]
+      cases i with
+      | zero =>
+        have : ((0 : Nat) : Int) < M + 1 := by omega
+        simp only [Nat.lt_one_iff, ↓reduceIte, drawRow_get, this, List.getElem?_cons_zero]
+        simp only [Int.natCast_zero, hcell0]
+      | succ i => simp
+    have hdrop : ∀ t ∈ (drawRow .full L M 0 (M + 1) 0).drop 1, t = PLACEHOLDER := by
+      intro t ht
+      obtain ⟨i, hi⟩ := List.getElem?_of_mem ht
+      rw [List.getElem?_drop, drawRow_get] at hi
+      split at hi
+      · simp only [Option.some.injEq] at hi
+        rw [← hi]
+        unfold tokenAt
+        cases hg : get? L (cellOf .full M 0 ((1 + i : Nat) : Int) 0) with
+        | none => rfl
+        | some v =>
+          exfalso
+          have hmem := get?_some_mem L _ v hg
+          have hb := (hhex _ hmem).2.2.1
+          have hj : (cellOf .full M 0 ((1 + i : Nat) : Int) 0).2 < -M := by
+            simp only [cellOf, fullBase]
+            split
+            · simp only []; omega
+            · split <;> (simp only []; omega)
+          simp only at hb
+          omega
+      · cases hi
+    rw [hsplit, removeTrailing_append_placeholders _ _ hdrop, htake]
+    have htd := tokenAt_data L hdata (0, -M) vD hDm
+    exact removeTrailing_of_last_data _ _ (by simp) htd.2.2.1
+  -- the last drawn line is that bottom line
+  have hlast : m.lines.getLast? = some [tokenAt L (0, -M)] := by
+    have hrl : (rawLines .full L M 0 (M + 1) (M * 4 + 1 - 0 * 2)).getLast? = some (drawRow .full L M 0 (M + 1) 0) := by
+      rw [hraw, List.getLast?_map, List.getLast?_reverse]
+      have : (pyRange (M * 4 + 1 - 0 * 2)).head? = some 0 := by
+        have h1 : (pyRange (M * 4 + 1 - 0 * 2))[0]? = some ((0 : Nat) : Int) := by
+          rw [pyRange_get]; have h0 : (0 : Int) < M * 4 + 1 := by omega
+          simp [h0]
+        rw [List.head?_eq_getElem?]; simpa using h1
+      rw [this]; rfl
+    have hdl : ((rawLines .full L M 0 (M + 1) (M * 4 + 1 - 0 * 2)).drop kd).getLast? = some (drawRow .full L M 0 (M + 1) 0) := by
+      have hlt : kd < (rawLines .full L M 0 (M + 1) (M * 4 + 1 - 0 * 2)).length := by
+        rcases Nat.lt_or_ge kd (rawLines .full L M 0 (M + 1) (M * 4 + 1 - 0 * 2)).length with h | h
+        · exact h
+        · exfalso; apply hne; rw [hlines, List.drop_of_length_le h]; rfl
+      rw [List.getLast?_drop, if_neg (by omega)]; exact hrl
+    rw [hlines, List.getLast?_map, hdl]
+    simp [hbottom]
+  -- the reader re-infers radius and corner cut
+  have hre : readerDims .full m.lines = (M, 0) := by
+    unfold readerDims
+    have hmax : maxD 0 (m.lines.map (fun l => (l.length : Int))) = M + 1 := by
+      apply maxD_eq
+      · have hlM : (pyRange (M * 4 + 1 - 0 * 2))[M.toNat]? = some M := by
+          rw [pyRange_get]
+          have h2 : ((M.toNat : Nat) : Int) = M := by omega
+          have h3 : M < M * 4 + 1 := by omega
+          simp [h2, h3]
+        have hmidraw : drawRow .full L M 0 (M + 1) M ∈ rawLines .full L M 0 (M + 1) (M * 4 + 1 - 0 * 2) := by
+          rw [hraw]
+          exact List.mem_map.mpr ⟨M, List.mem_reverse.mpr (List.mem_of_getElem? hlM), rfl⟩
+        -- that row ends with the data of (M, -M), so it is neither dropped nor trimmed
+        have hlastM := drawRow_last .full L M 0 (M + 1) M (by omega)
+        have hcell : cellOf .full M 0 (M + 1 - 1) M = (M, -M) := by
+          simp only [cellOf, fullBase]
+          split
+          · omega
+          · split <;> (simp only [Prod.mk.injEq]; omega)
+        rw [hcell] at hlastM
+        have htd := tokenAt_data L hdata (M, -M) vC hCm
+        have hrt := removeTrailing_of_last_data _ _ hlastM htd.2.2.1
+        have hmid : drawRow .full L M 0 (M + 1) M ∈ (rawLines .full L M 0 (M + 1) (M * 4 + 1 - 0 * 2)).drop kd := by
+          have hsplit := List.take_append_drop kd (rawLines .full L M 0 (M + 1) (M * 4 + 1 - 0 * 2))
+          rw [← hsplit] at hmidraw
+          rcases List.mem_append.mp hmidraw with h | h
+          · exfalso
+            have hd := hdash _ h
+            have hmemt := List.mem_of_getLast? hlastM
+            unfold rowAllDash at hd
+            simp only [Bool.and_eq_true] at hd
+            have hall := List.all_eq_true.mp hd.2 _ hmemt
+            rw [htd.2.2.2] at hall; cases hall
+          · exact h
+        refine List.mem_map.mpr ⟨removeTrailing (drawRow .full L M 0 (M + 1) M), ?_, ?_⟩
+        · rw [hlines]; exact List.mem_map.mpr ⟨_, hmid, rfl⟩
+        · rw [hrt, drawRow_length]; omega
+      · intro x hx
+        obtain ⟨l, hl, rfl⟩ := List.mem_map.mp hx
+        rw [hlines] at hl
+        obtain ⟨row, hrow, rfl⟩ := List.mem_map.mp hl
+        have hrow' := List.mem_of_mem_drop hrow
+        rw [hraw] at hrow'
+        obtain ⟨ln, _, rfl⟩ := List.mem_map.mp hrow'
+        have := removeTrailing_length_le (drawRow .full L M 0 (M + 1) ln)
+        rw [drawRow_length] at this
+        omega
+    simp only [hmax, hlast, Option.getD_some, List.length_singleton, Prod.mk.injEq]
+    omega
+  apply write_read_complete_partial .full L m M 0 (M + 1) (M * 4 + 1 - 0 * 2) hdim hdata _ hw (fun _ => hre)
+  · intro h; cases h
+  · intro p hp
+    obtain ⟨h1, h2, h3, h4, h5, h6⟩ := hhex p hp
+    exact full_window M p.1.1 p.1.2 h1 h2 h3 h4 h5 h6
+
 section Examples
 /-! Non-vacuity: concrete instances of the hypotheses. -/
 private def exL : Labels := [((0, 0), "A"), ((1, 0), "F1"), ((0, 1), "C"), ((2, 1), "B")]
@@ -1800,6 +2384,94 @@ theorem place_refuses_iff (ds : List AssemDesign) (contents : List (Cell × Stri
         simp only [reduceCtorEq, false_or, false_iff]
         intro hex
         exact absurd (ih.mpr hex) (by simp)
+
+
+/-- **lists of unequal length are refused**: if any per-block list has another length than the block list,
+no block is built -/
+theorem unequal_lists_refused (d : AssemDesign)
+    (h : d.heights.length ≠ d.blocks.length ∨ d.xsTypes.length ≠ d.blocks.length ∨ d.meshPoints.length ≠ d.blocks.length) :
+    pairBlocks d = none := by
+  unfold pairBlocks consistent
+  rcases h with h | h | h <;> simp [h]
+
+/-- and when the lists agree, block `k` gets the `k`-th height, cross-section type and mesh count -/
+theorem pairBlocks_get (d : AssemDesign) (r : List (String × Rat × String × Nat)) (h : pairBlocks d = some r)
+    (k : Nat) (hk : k < d.blocks.length) :
+    r[k]? = some (d.blocks[k], d.heights[k]'(by
+        unfold pairBlocks consistent at h; split at h <;> simp_all),
+      d.xsTypes[k]'(by unfold pairBlocks consistent at h; split at h <;> simp_all),
+      d.meshPoints[k]'(by unfold pairBlocks consistent at h; split at h <;> simp_all)) := by
+  unfold pairBlocks at h
+  split at h
+  · rename_i hc
+    simp only [Option.some.injEq] at h
+    subst h
+    unfold consistent at hc
+    simp only [Bool.and_eq_true, beq_iff_eq] at hc
+    simp [hk, hc]
+  · cases h
+
+theorem mem_positions (grid : List (Cell × String)) (ids : List String) (c : Cell) :
+    c ∈ positions grid ids ↔ ∃ s, (c, s) ∈ grid ∧ s ∈ ids := by
+  unfold positions
+  simp only [List.mem_map, List.mem_filter, List.contains_iff_mem]
+  constructor
+  · rintro ⟨p, ⟨hp, hs⟩, rfl⟩; exact ⟨p.2, hp, hs⟩
+  · rintro ⟨s, hp, hs⟩; exact ⟨(c, s), ⟨hp, hs⟩, rfl⟩
+
+/-- **the multiplicity of a lattice component is the number of its grid positions**: whenever the component
+stands on at least one position and construction is not refused, `mult` is that number — whatever was declared -/
+theorem mult_is_position_count (grid : List (Cell × String)) (ids : List String) (declared r : Option Rat)
+    (hpos : 0 < (positions grid ids).length)
+    (h : multFromGrid grid ids declared = some r) :
+    r = some (((positions grid ids).length : Nat) : Rat) := by
+  unfold multFromGrid learnMult at h
+  have hn : ¬ (positions grid ids).length = 0 := by omega
+  rw [if_neg hn] at h
+  cases declared with
+  | none => simpa using h.symm
+  | some m =>
+    simp only at h
+    split at h
+    · cases h
+    · rename_i hc
+      split at h
+      · simpa using h.symm
+      · rename_i hc2
+        simp only [Option.some.injEq] at h
+        rw [← h]
+        have : m = ((positions grid ids).length : Rat) := by
+          apply Decidable.byContradiction
+          intro hne
+          exact hc ⟨fun h0 => hc2 (Or.inl h0), fun h1 => hc2 (Or.inr h1), hne⟩
+        rw [this]
+
+/-- a declared multiplicity that is neither 0, 1 nor the number of positions is refused -/
+theorem conflicting_mult_refused (grid : List (Cell × String)) (ids : List String) (m : Rat)
+    (hpos : 0 < (positions grid ids).length)
+    (h0 : m ≠ 0) (h1 : m ≠ 1) (hn : m ≠ ((positions grid ids).length : Rat)) :
+    multFromGrid grid ids (some m) = none := by
+  unfold multFromGrid learnMult
+  have : ¬ (positions grid ids).length = 0 := by omega
+  simp [this, h0, h1, hn]
+
+/-- every flag read from a name word is a flag of the framework -/
+theorem wordFlags_sound (known ws : List String) (f : String) (h : f ∈ wordFlags known ws) : f ∈ known := by
+  unfold wordFlags at h
+  obtain ⟨w, _, hw⟩ := List.mem_filterMap.mp h
+  split at hw
+  · rename_i hk; simp only [Option.some.injEq] at hw; rw [← hw]; exact List.contains_iff_mem.mp hk
+  · simp only at hw
+    split at hw
+    · cases hw
+    · split at hw
+      · rename_i hk; simp only [Option.some.injEq] at hw; rw [← hw]; exact List.contains_iff_mem.mp hk
+      · cases hw
+
+example : wordFlags ["FUEL", "LOWER", "B10"] ["LOWER", "FUEL3", "2", "B10", "XYZ"] = ["LOWER", "FUEL", "B10"] := by decide
+example : multFromGrid [((0, 0), "1"), ((1, 0), "2"), ((0, 1), "1")] ["1"] none = some (some 2) := by decide +kernel
+example : multFromGrid [((0, 0), "1"), ((1, 0), "2"), ((0, 1), "1")] ["1"] (some 5) = none := by decide +kernel
+
 
 section Examples
 /-! Non-vacuity for the blueprint theorems. -/
